@@ -28,6 +28,9 @@ func init() {
 }
 
 func ethGenesis(v string) *eth.Header {
+	if v == "gdeg" { // height 0, empty extra data
+		return &eth.Header{UncleHash: etypes.EmptyUncleHash, Number: big.NewInt(0), Difficulty: big.NewInt(1000000), Extra: []byte{}, GasLimit: 10000000, Time: baseTime}
+	}
 	return polyEthHeader(1000+hOff(v), v, []byte("verif-"+v), [20]byte{1}, 1000000)
 }
 
